@@ -84,6 +84,12 @@ func c05poison(c *core.Ctx) {
 					// a bystander that sees everything the broker publishes, wills included
 					b := t.connect("B", 0, 65535, false)
 					t.subscribe("B", "#", 1)
+					// two small retained messages, on either side of the attacker's will topic in any
+					// order the retained tree may be walked in
+					p.rc.Send(&refcodec.Packet{Type: refcodec.PUBLISH, Topic: []byte("keep/1"), Retain: true, Payload: []byte("kept-1")})
+					p.rc.Send(&refcodec.Packet{Type: refcodec.PUBLISH, Topic: []byte("x/2"), Retain: true, Payload: []byte("kept-2")})
+					t.w.Settle()
+					b.rc.Take()
 					if vsched.Failed() {
 						return
 					}
@@ -146,9 +152,16 @@ func c05poison(c *core.Ctx) {
 					}
 					l.rc.Send(&refcodec.Packet{Type: refcodec.SUBSCRIBE, ID: 8, Topics: [][]byte{[]byte("#")}, QoSs: []byte{1}})
 					t.w.Settle()
-					if got := l.rc.Take(); !hasType(got, refcodec.SUBACK) || l.rc.EOF {
-						vsched.Failf("a client that connected after the attack and subscribed to '#' got %s (closed=%v)", Describe(got), l.rc.EOF)
+					lgot := l.rc.Take()
+					if !hasType(lgot, refcodec.SUBACK) || l.rc.EOF {
+						vsched.Failf("a client that connected after the attack and subscribed to '#' got %s (closed=%v)", Describe(lgot), l.rc.EOF)
 						return
+					}
+					for _, k := range []string{"keep/1", "x/2"} {
+						if ps := publishesOn(lgot, k); len(ps) != 1 || !ps[0].Retain {
+							vsched.Failf("a client that connected after the attack and subscribed to '#' did not receive the retained message on %q (it received %s)", k, Describe(lgot))
+							return
+						}
 					}
 					l.rc.Send(&refcodec.Packet{Type: refcodec.PINGREQ})
 					t.w.Settle()
